@@ -18,10 +18,10 @@ TECH = {
     "C17": ("contracts on merkle_root, MerkleBlock.is_valid/proved_txs, Block.hash/target/check_pow, bits/target conversion, retarget, HeadersMessage.is_valid vs reference chain model; exhaustive trees <= 10 leaves x all match sets; proof tampering; stubbed hash at the target boundary", "2 C17"),
     "C18": ("contracts on SipHash, murmur3, Golomb/GCS codec, CompactFilter, CFHeaders chaining and BloomFilter vs reference filters; every message tail length; committed hash-collision witnesses", "2 C18"),
     "C19": ("contracts on the primitive wire helpers, NetworkEnvelope and every message serialize/parse vs struct-based reference layouts; every-byte corruption of sampled envelopes; truncation", "2 C19"),
-    "C10": ("history monitor over signer subsets / orders / combine shapes on parse(serialize()) copies (one combined PSBT and one final tx per signer set, success iff >= m); contracts on PSBT.serialize (independent TLV reader), combine, finalize, final_tx; corrupted partial signatures must not load", "2 C10"),
+    "C10": ("history monitor over signer subsets / orders / combine shapes on parse(serialize()) copies (one combined PSBT and one final tx per signer set, success iff >= m); contracts on PSBT.serialize (independent TLV reader), combine, finalize, final_tx; corrupted partial signatures must not load; PSBTs from the library's builder, from plain-signed transactions and with both UTXO forms", "2 C10"),
     "C11": ("boundary monitor on PSBT.parse + describe_basic_multisig: sums vs ground truth, independent change oracle re-deriving every labelled change output from the wallet seeds with reference BIP32, BIP174-level tamper catalogue", "2 C11"),
-    "C07": ("contracts on every non-signature OP_CODE_FUNCTIONS entry and on encode_num/decode_num vs a port of EvalScript; whole-program differential on Script.evaluate; timelock grid", "2 C07"),
-    "C06": ("boundary monitor on Tx.verify_input: library-signed positives for 12 spend types, mutation catalogue classified by a reference authorisation analyser (negatives carry an unauthorised-by-construction proof); contracts on the signature opcodes", "2 C06"),
+    "C07": ("contracts on every non-signature OP_CODE_FUNCTIONS entry and on encode_num/decode_num vs a port of EvalScript; whole-program differential on Script.evaluate (nested conditionals with several ELSEs, wide time-lock operands); timelock grid", "2 C07"),
+    "C06": ("boundary monitor on Tx.verify_input: library-signed positives for 12 spend types, mutation catalogue classified by a reference authorisation analyser (negatives carry an unauthorised-by-construction proof); keyless-attacker fuzz (structure-aware scriptSigs / witnesses built without any key of the output must all be refused); in-place edit histories; contracts on the signature opcodes", "2 C06"),
     "C05": ("contracts on Tx.sig_hash_legacy/_bip143/_bip341/sig_hash that snapshot the object at call time and recompute the digest with a memo-free reference; query/edit history workload; fresh-object comparison", "2 C05"),
     "C04": ("contracts on Tx/Script/Witness/varint codecs vs reference wire codec; byte and field round trips; txid edit monitors; fetcher history monitor against a stubbed hostile server with cache invariant", "2 C04"),
     "C02": ("contracts on sign_schnorr / bip340_k / verify_schnorr / tagged_hash vs reference BIP340; 64-byte candidate catalogue through parse+verify; tag-cache invariant", "2 C02"),
